@@ -410,8 +410,8 @@ func conclude(ctx *core.Ctx, pl *plan, pool *Pool, results map[string]*Result, r
 	if err != nil {
 		return err
 	}
-	confirmPool.defaultStack = true
-	confirmPool.Watchdog = 45 * time.Second // an unbounded recursion needs about 10 s to exhaust Go's default 1 GB stack
+	confirmPool.confirming = true
+	confirmPool.Watchdog = 45 * time.Second
 	for _, k := range keys {
 		ss := byKey[k]
 		confirmed := false
@@ -512,9 +512,9 @@ func makeReplay(pool *Pool, info *caseInfo, res *Result, r *Rec, clause string) 
 	return rc, nil
 }
 
-// confirm re-executes a case alone in a fresh worker (Go's default stack
-// limit, long grace period) and reports whether the same call is rejected
-// again for the same clause.
+// confirm re-executes a case alone in a fresh worker (long watchdog, long
+// grace period) and reports whether the same call is rejected again for the
+// same clause.
 func confirm(ctx *core.Ctx, pool *Pool, rc *replayCase) (bool, *Rec, error) {
 	req := rc.req()
 	w, res := pool.runCase(nil, req)
